@@ -18,14 +18,14 @@ def one(mid):
     os.makedirs("/tmp/mm", exist_ok=True)
     r = subprocess.run(["git", "-C", "/repo", "worktree", "add", "--detach", wt, "HEAD"], capture_output=True, text=True)
     res = {"id": mid, "checks": {}}
-    patch = os.path.join(V, "seeded", mid, "patch.diff")
+    patch = os.path.join(V, SEEDDIR, mid, "patch.diff")
     a = subprocess.run(["git", "-C", wt, "apply", patch], capture_output=True, text=True)
     if a.returncode != 0:
         a = subprocess.run(["git", "-C", wt, "apply", "--3way", patch], capture_output=True, text=True)
     if a.returncode != 0:
         res["error"] = "patch does not apply to current HEAD: " + a.stderr[-300:]
     else:
-        prop = json.load(open(os.path.join(V, "seeded", mid, "meta.json"))).get("property", mid[:3])
+        prop = json.load(open(os.path.join(V, SEEDDIR, mid, "meta.json"))).get("property", mid[:3])
         for c in REL.get(prop, [prop]):
             env = dict(os.environ, VERIF_REPO=wt, VERIF_BUILD=bd, VERIF_OUT=od, VERIF_TIER="quick", VERIF_SEED=os.environ.get("VERIF_SEED", "0"))
             p = subprocess.run([os.path.join(V, "check"), c, "--tier", "quick"], capture_output=True, text=True, env=env, cwd=V)
@@ -36,14 +36,20 @@ def one(mid):
     shutil.rmtree(bd, ignore_errors=True); shutil.rmtree(od, ignore_errors=True)
     return res
 
+SEEDDIR = "seeded"
+
+
 def main():
+    global SEEDDIR
+    if "--dir" in sys.argv:
+        i = sys.argv.index("--dir"); SEEDDIR = sys.argv[i + 1]; del sys.argv[i:i + 2]
     args = [a for a in sys.argv[1:] if not a.startswith("--")]
     jobs = 2
     if "--jobs" in sys.argv:
         jobs = int(sys.argv[sys.argv.index("--jobs") + 1]); args = [a for a in args if a != str(jobs)]
-    ids = args or sorted(d for d in os.listdir(os.path.join(V, "seeded")) if os.path.isdir(os.path.join(V, "seeded", d)))
+    ids = args or sorted(d for d in os.listdir(os.path.join(V, SEEDDIR)) if os.path.isdir(os.path.join(V, SEEDDIR, d)))
     out = {}
-    mp = os.path.join(V, "seeded", "MATRIX.json")
+    mp = os.path.join(V, SEEDDIR, "MATRIX.json")
     if os.path.exists(mp):
         out = json.load(open(mp))
     with cf.ThreadPoolExecutor(max_workers=jobs) as ex:
